@@ -217,6 +217,52 @@ type Op struct {
 	// concurrent: run every history in its own goroutine, each on its own parser
 	Concurrent bool     ` + "`json:\"concurrent\"`" + `
 	Repeat     int      ` + "`json:\"repeat\"`" + `
+	// schedule: order in which the goroutines may pass their gates (goroutine = history index)
+	Schedule   []int    ` + "`json:\"schedule\"`" + `
+	// texts: instead of scripted token types, real lexers over these texts (one per history)
+	Texts      [][]string ` + "`json:\"texts\"`" + `
+}
+
+type sched struct {
+	mu    sync.Mutex
+	cond  *sync.Cond
+	order []int
+	pos   int
+	done  map[int]bool
+}
+
+func newSched(order []int) *sched {
+	s := &sched{order: order, done: map[int]bool{}}
+	s.cond = sync.NewCond(&s.mu)
+	return s
+}
+
+func (s *sched) skipDone() {
+	for s.pos < len(s.order) && s.done[s.order[s.pos]] {
+		s.pos++
+	}
+}
+
+func (s *sched) gate(id int) {
+	s.mu.Lock()
+	s.skipDone()
+	for s.pos < len(s.order) && s.order[s.pos] != id {
+		s.cond.Wait()
+		s.skipDone()
+	}
+	if s.pos < len(s.order) {
+		s.pos++
+	}
+	s.cond.Broadcast()
+	s.mu.Unlock()
+}
+
+func (s *sched) finish(id int) {
+	s.mu.Lock()
+	s.done[id] = true
+	s.skipDone()
+	s.cond.Broadcast()
+	s.mu.Unlock()
 }
 
 type Res struct {
@@ -235,6 +281,8 @@ type Pkg struct {
 	TokType func(s string) int
 	// NewParser returns a function that parses one scripted input on the same parser object.
 	NewParser func() func(in Input, run *vlog.Run)
+	// NewTextParser: the same with a real generated lexer over a text as the scanner
+	NewTextParser func() func(text []byte, run *vlog.Run)
 }
 
 var pkgs = map[string]*Pkg{}
@@ -273,21 +321,48 @@ func main() {
 				if rep < 1 {
 					rep = 1
 				}
-				r.Runs = make([][][]map[string]interface{}, len(op.Histories))
+				nG := len(op.Histories)
+				if len(op.Texts) > 0 {
+					nG = len(op.Texts)
+				}
+				r.Runs = make([][][]map[string]interface{}, nG)
+				var sc *sched
+				if len(op.Schedule) > 0 {
+					sc = newSched(op.Schedule)
+				}
 				var wg sync.WaitGroup
-				for hi := range op.Histories {
+				for hi := 0; hi < nG; hi++ {
 					wg.Add(1)
 					go func(hi int) {
 						defer wg.Done()
+						if sc != nil {
+							defer sc.finish(hi)
+						}
 						for k := 0; k < rep; k++ {
-							parse := p.NewParser()
 							var runs [][]map[string]interface{}
-							for _, in := range op.Histories[hi] {
+							mk := func() *vlog.Run {
 								run := vlog.NewRun()
 								run.Quiet = true
-								run.FailAt = in.FailAt
-								parse(in, run)
-								runs = append(runs, run.Events)
+								if sc != nil {
+									run.Gate = func(string) { sc.gate(hi) }
+								}
+								return run
+							}
+							if len(op.Texts) > 0 {
+								parse := p.NewTextParser()
+								for _, tx := range op.Texts[hi] {
+									run := mk()
+									parse([]byte(tx), run)
+									runs = append(runs, run.Events)
+								}
+							} else {
+								parse := p.NewParser()
+								for _, in := range op.Histories[hi] {
+									run := mk()
+									run.FailAt = in.FailAt
+									parse(in, run)
+									runs = append(runs, run.Events)
+								}
 							}
 							r.Runs[hi] = runs
 						}
@@ -390,6 +465,65 @@ func init() {
 }
 `
 
+const parseDrvLexGlue = `package main
+
+import (
+	"fmt"
+
+	perrors "scratch/%[1]s/errors"
+	lexer "scratch/%[1]s/lexer"
+	parser "scratch/%[1]s/parser"
+	token "scratch/%[1]s/token"
+	"scratch/vlog"
+)
+
+type lexscn_%[1]s struct {
+	l   *lexer.Lexer
+	i   int
+	run *vlog.Run
+}
+
+func (s *lexscn_%[1]s) Scan() *token.Token {
+	if s.run.Gate != nil {
+		s.run.Gate("scan")
+	}
+	s.i++
+	t := s.l.Scan()
+	s.run.RegisterToken(t, s.i)
+	s.run.Emit(map[string]interface{}{"ev": "scan", "i": s.i, "t": int(t.Type), "lit": string(t.Lit), "off": t.Pos.Offset, "line": t.Pos.Line, "col": t.Pos.Column})
+	return t
+}
+
+func init() {
+	pkgs[%[1]q].NewTextParser = func() func(text []byte, run *vlog.Run) {
+		p := parser.NewParser()
+		return func(text []byte, run *vlog.Run) {
+			defer func() {
+				if r := recover(); r != nil {
+					run.Emit(map[string]interface{}{"ev": "panic", "msg": fmt.Sprint(r)})
+				}
+			}()
+			p.Context = run
+			res, err := p.Parse(&lexscn_%[1]s{l: lexer.NewLexer(text), run: run})
+			ev := map[string]interface{}{"ev": "ret", "ok": err == nil, "res": run.Describe(res)}
+			if err != nil {
+				d := map[string]interface{}{"k": "?"}
+				if pe, ok := err.(*perrors.Error); ok {
+					d = run.Describe(pe)
+					d["injected"] = pe.Err == vlog.ErrInjected
+					d["msg"] = pe.Error()
+					if pe.ErrorToken != nil {
+						d["toktype"] = int(pe.ErrorToken.Type)
+					}
+				}
+				ev["err"] = d
+			}
+			run.Emit(ev)
+		}
+	}
+}
+`
+
 type parseInput struct {
 	Toks   []int `json:"toks"`
 	FailAt int   `json:"failat"`
@@ -403,6 +537,8 @@ type parseOp struct {
 	Histories  [][]parseInput `json:"histories,omitempty"`
 	Concurrent bool           `json:"concurrent,omitempty"`
 	Repeat     int            `json:"repeat,omitempty"`
+	Schedule   []int          `json:"schedule,omitempty"`
+	Texts      [][]string     `json:"texts,omitempty"`
 }
 
 type realEntry struct {
@@ -440,7 +576,12 @@ type ParseDriver struct {
 	m   *Module
 	Bin string
 	seq int
+	// Race: excerpt of the race detector's report of the last run ("" if none)
+	Race string
 }
+
+// withLexGlue: set before BuildParseDriver to also link the generated lexers (text parsing)
+var withLexGlue = false
 
 // installVlog writes the logging runtime into the scratch module.
 func (m *Module) installVlog() {
@@ -457,6 +598,9 @@ func (m *Module) BuildParseDriver(name string, subs []string, extra ...string) (
 	for _, s := range subs {
 		mustWrite(filepath.Join(m.Dir, s, "parser", "verif_dump.go"), []byte(parseDumpSrc))
 		mustWrite(filepath.Join(dir, "glue_"+s+".go"), []byte(fmt.Sprintf(parseDrvGlue, s)))
+		if withLexGlue {
+			mustWrite(filepath.Join(dir, "gluelex_"+s+".go"), []byte(fmt.Sprintf(parseDrvLexGlue, s)))
+		}
 	}
 	bin := filepath.Join(dir, "drv")
 	out, ok := m.Build(name, bin, extra...)
@@ -475,7 +619,15 @@ func (d *ParseDriver) Run(ops []parseOp) ([]parseRes, string) {
 	out := filepath.Join(filepath.Dir(d.Bin), fmt.Sprintf("res%d.json", n))
 	mustWrite(in, mustJSON(ops))
 	r := runCmd(cmdOpts{Dir: filepath.Dir(d.Bin), Timeout: 15 * time.Minute}, d.Bin, in, out)
-	if r.Code != 0 {
+	d.Race = ""
+	if k := strings.Index(r.Out, "WARNING: DATA RACE"); k >= 0 {
+		// the race detector reports and exits with status 66 after main has written the results
+		end := k + 3000
+		if end > len(r.Out) {
+			end = len(r.Out)
+		}
+		d.Race = r.Out[k:end]
+	} else if r.Code != 0 {
 		infra("parser driver failed (code %d, timeout %v):\n%s", r.Code, r.TimedOut, tail(r.Out, 30))
 	}
 	b, err := os.ReadFile(out)
